@@ -204,8 +204,8 @@ def targeted(dirs, jobs):
                 return m.group(1)
         except OSError:
             pass
-        m = re.search(r"(C\d\d)", os.path.basename(os.path.abspath(d)))
-        return m.group(1) if m else None
+        m = re.search(r"(C\d\d)", os.path.basename(os.path.abspath(d)), re.I)
+        return m.group(1).upper() if m else None
 
     def one(d):
         pr = prop_of(d)
